@@ -71,7 +71,18 @@ class C12(XsProp):
                 if ksrc is None:
                     continue
                 ktxt = cells.fmt(k)
-                if r < 0.45:
+                if r < 0.12:
+                    # the map is replaced by a literal, often with a key written twice: the last pair wins, as with successive inserts
+                    pairs = []
+                    for _ in range(rng.randint(0, 5)):
+                        k2 = rng.choice(pool if rng.random() < 0.6 or not pairs else [p_[0] for p_ in pairs])
+                        if cells.source(cells.strip(k2)) is None:
+                            continue
+                        pairs.append((cells.strip(k2), ('I', rng.randint(0, 99))))
+                    src = '{ %s} ! m' % ''.join('%s %s ' % (cells.source(v_), cells.source(k_)) for k_, v_ in pairs)
+                    steps.append('eval %s | stack' % hexsrc(src))
+                    ops.append(('literal', pairs))
+                elif r < 0.45:
                     v = ('I', rng.randint(0, 99))
                     steps.append('push %s | push %s | eval %s | stack' % (cells.fmt(v), ktxt, hexsrc('m rot swap insert ! m')))
                     ops.append(('insert', k, v))
@@ -134,7 +145,12 @@ class C12(XsProp):
         """the case's key set mixes types or uses a type the tree order cannot compare"""
         if case not in getattr(self, 'meta', {}) or self.meta[case][0] != 'map':
             return None
-        keys = [op[1] for op in self.meta[case][1] if len(op) > 1]
+        keys = []
+        for op in self.meta[case][1]:
+            if op[0] == 'literal':
+                keys += [k for k, _ in op[1]]
+            elif len(op) > 1:
+                keys.append(op[1])
         types = {ktype(k) for k in keys}
         if len(types) > 1 or not types <= set(ORDERED):
             return self.D19
@@ -162,7 +178,21 @@ class C12(XsProp):
                 i = 2
                 bad = None
                 for op in info:
-                    if op[0] == 'insert':
+                    if op[0] == 'literal':
+                        res = ou[i]
+                        i += 2
+                        model = []
+                        for k_, v_ in op[1]:
+                            keys_seen.append(k_)
+                            for j, (k, v) in enumerate(model):
+                                if ceq(k, k_):
+                                    model[j] = (k_, v_)
+                                    break
+                            else:
+                                model.append((k_, v_))
+                        if res != 'ok':
+                            bad = 'map literal failed: %s' % res
+                    elif op[0] == 'insert':
                         res, sk = ou[i + 2], ou[i + 3]
                         i += 4
                         keys_seen.append(op[1])
